@@ -1,7 +1,7 @@
 //! C14 (set level): BitSet with a CONCRETE page layout and SYMBOLIC page contents, against the
 //! mathematical set. Pulled into read-fonts/src/collections/int_set/bitset.rs as `mod verif_harness`.
 //!
-//! @assume page layout (which majors exist, how `pages` is ordered relative to the sorted `page_map`) is concrete per query: layouts used are majors {0,2} (a missing page in between, pages stored out of order) and majors {0,1} (adjacent pages); every page content is symbolic. Inserting into a *new* major (symbolic Vec::insert position) is outside the claim
+//! @assume page layout (which majors exist, how `pages` is ordered relative to the sorted `page_map`) is concrete per query: layouts used are majors {0,2} (a missing page in between, pages stored out of order) and majors {0,1} (adjacent pages); page contents: the last two words of the first page and the first two words of the second page are symbolic, the rest zero (full 512-bit symbolic pages exhausted 10 GB / 15 min). Inserting into a *new* major (symbolic Vec::insert position) is outside the claim
 //! @bound first 3 ranges / items of iterators; unwind 12
 #![allow(unused, clippy::all)]
 
@@ -14,8 +14,11 @@ use super::super::bitpage::verif_harness::{any_page_with, member as page_member}
 
 /// two pages: `pages[1]` holds major `m0`, `pages[0]` holds major `m1` (m0 < m1)
 fn two_page_set(m0: u32, m1: u32) -> (BitSet, [u64; 8], [u64; 8]) {
-    let s0: [u64; 8] = kani::any();
-    let s1: [u64; 8] = kani::any();
+    // first page: words 6 and 7 symbolic (the end of the page); second page: words 0 and 1
+    // symbolic (its start) -- the region where ranges run across a page boundary
+    let w: [u64; 4] = kani::any();
+    let s0: [u64; 8] = [0, 0, 0, 0, 0, 0, w[0], w[1]];
+    let s1: [u64; 8] = [w[2], w[3], 0, 0, 0, 0, 0, 0];
     let p0 = any_page_with(s0);
     let p1 = any_page_with(s1);
     let length = p0.len() as u64 + p1.len() as u64;
@@ -38,12 +41,12 @@ fn member(m0: u32, m1: u32, s0: &[u64; 8], s1: &[u64; 8], v: u32) -> bool {
     }
 }
 
-fn check_ranges(m0: u32, m1: u32) {
+fn check_ranges(m0: u32, m1: u32, max_ranges: u32) {
     let (set, s0, s1) = two_page_set(m0, m1);
     let mut it = set.iter_ranges();
     let mut prev_end: Option<u32> = None;
     let mut n = 0;
-    while n < 3 {
+    while n < max_ranges {
         let Some(r) = it.next() else { break };
         let (s, e) = (*r.start(), *r.end());
         assert!(s <= e);
@@ -70,30 +73,42 @@ fn check_ranges(m0: u32, m1: u32) {
         prev_end = Some(e);
         n += 1;
     }
-    if n < 3 {
+    if n < max_ranges {
         // iterator ended: no member after the last range
         let h: u32 = kani::any();
         kani::assume(prev_end.map(|q| h > q).unwrap_or(true));
         assert!(!member(m0, m1, &s0, &s1, h));
     }
-    kani::cover!(n == 3, "three ranges");
+    kani::cover!(n == max_ranges, "all requested ranges returned");
     kani::cover!(n >= 1 && prev_end.map(|e| e >> 9 == m1).unwrap_or(false), "a range ends in the second page");
     drop(it);
     core::mem::forget(set);
 }
 
+// @bound first range only
 // @timeout 1500
 #[cfg_attr(kani, kani::proof)]
-#[cfg_attr(kani, kani::unwind(12))]
-pub fn c14_bitset_iter_ranges_gap_layout() {
-    check_ranges(0, 2);
+#[cfg_attr(kani, kani::unwind(10))]
+pub fn c14_bitset_first_range_gap_layout() {
+    check_ranges(0, 2, 1);
 }
 
+// @bound first range only
 // @timeout 1500
 #[cfg_attr(kani, kani::proof)]
-#[cfg_attr(kani, kani::unwind(12))]
-pub fn c14_bitset_iter_ranges_adjacent_layout() {
-    check_ranges(0, 1);
+#[cfg_attr(kani, kani::unwind(10))]
+pub fn c14_bitset_first_range_adjacent_layout() {
+    check_ranges(0, 1, 1);
+}
+
+// @bound first two ranges
+// @tier thorough
+// @timeout 3000
+// @mem 30
+#[cfg_attr(kani, kani::proof)]
+#[cfg_attr(kani, kani::unwind(10))]
+pub fn c14_bitset_two_ranges_gap_layout() {
+    check_ranges(0, 2, 2);
 }
 
 // @timeout 1500
@@ -123,7 +138,9 @@ pub fn c14_bitset_contains_insert_remove_len() {
     core::mem::forget(set);
 }
 
-// @timeout 1500
+// @tier thorough
+// @timeout 3000
+// @mem 30
 #[cfg_attr(kani, kani::proof)]
 #[cfg_attr(kani, kani::unwind(12))]
 pub fn c14_bitset_iter_and_iter_after() {
